@@ -353,7 +353,9 @@ def run(ctx: Ctx) -> int:
     # ---- design level: RegistryOK in every state of every behaviour
     pf = ctx.scratch / "projects_inv.json"
     pf.write_text(json.dumps([procrun.strip(p) for p in projs]))
-    r = ctx.tlc("Processing", CFG_REG, workers="auto", env={"PROJECT_FILE": str(pf)}, check=True, coverage=ctx.quick)
+    # (no -coverage here: TLC's coverage pass does not come back from the start-up of this module since Processing.tla has the
+    #  BeforeMove action - the per-action counts are taken from the emitted behaviours instead: the log of every behaviour names its steps)
+    r = ctx.tlc("Processing", CFG_REG, workers="auto", env={"PROJECT_FILE": str(pf)}, check=True, coverage=False)
     ctx.extra["design_level"] = {"RegistryInv": "holds in every state" if not r.violated else "VIOLATED in the model",
                                  "states": r.distinct}
     if r.coverage:
